@@ -227,6 +227,13 @@ func (g *Gateway) proxyRewrite(preq *httputil.ProxyRequest) {
 	for _, header := range delHeaders {
 		out.Header.Del(header)
 	}
+	// ReverseProxy only strips Forwarded and X-Forwarded-For/-Host/-Proto from the inbound request:
+	// drop every other client supplied X-Forwarded-* header too (X-Forwarded-Port, -Ssl, ...)
+	for header := range out.Header {
+		if strings.HasPrefix(header, "X-Forwarded-") {
+			out.Header.Del(header)
+		}
+	}
 
 	preq.SetXForwarded()
 	if g.GatewayPort == 443 {
